@@ -35,7 +35,8 @@ def run(ctx):
                        "purge ticks at all 60 phases around an expiry second, k=2..32 concurrent requests on 1/2/8 "
                        "threads; every history is non-trivial (distinct by content)")
     res = replay_common.component_phase(ctx, PROP, proved)
-    # (maintainer: live-daemon phase goes here)
+    from props import c05_live
+    c05_live.live_phase(ctx)
     if not proved and not ctx.violations:
         ctx.violation("proof obligation no longer checks: %s" % getattr(ctx, "broken_obligation", "?"),
                       {"obligation": getattr(ctx, "broken_obligation", "?"), "log": ctx.proof_log[-3000:]},
